@@ -159,6 +159,16 @@ def gen_case(rng):
                     seen.setdefault(f, (tag, _src(e)))
                     keep.append(e)
             conds, unlesses = keep_c, keep_u
+    two_src = rng.random() < 0.25
+    deco = None
+    if two_src and rng.random() < 0.7:
+        # a guard attached with the decorator syntax (@go.cond / @go.unless) to an event made of two
+        # transitions: it must keep its polarity on every transition of the event
+        dn = rng.choice([n for n in X.NAME_POOL if n not in names])
+        names = names + [dn]
+        layout[dn] = {"kind": rng.choice(["method", "method_kw"]), "providers": ["sm"], "deco": True}
+        deco = {"type": "expr", "tree": X.T("name", val=dn), "lib": dn, "py": dn, "deco": True}
+        (conds if rng.random() < 0.5 else unlesses).append(deco)
     nval = 4
     cmp_used = set()
     for e in conds + unlesses:
@@ -182,7 +192,7 @@ def gen_case(rng):
         valuations.append(v)
     return {
         "names": names, "layout": layout, "conds": conds, "unlesses": unlesses,
-        "valuations": valuations, "style": style, "via_any": rng.random() < 0.2,
+        "valuations": valuations, "style": style, "via_any": (not two_src) and rng.random() < 0.2, "two_src": two_src,
     }
 
 
@@ -229,7 +239,7 @@ def render(case, k):
         return [f"{indent}{n} = None"]
 
     for n in case["names"]:
-        if "sm" in lay[n]["providers"]:
+        if "sm" in lay[n]["providers"] and not lay[n].get("deco"):
             L += member(n, "sm")
 
     def ent(e):
@@ -238,14 +248,25 @@ def render(case, k):
         return e["name"]
 
     kw = []
-    if case["conds"]:
-        kw.append("cond=[" + ", ".join(ent(e) for e in case["conds"]) + "]" if len(case["conds"]) != 1 else "cond=" + ent(case["conds"][0]))
-    if case["unlesses"]:
-        kw.append("unless=[" + ", ".join(ent(e) for e in case["unlesses"]) + "]" if len(case["unlesses"]) != 1 else "unless=" + ent(case["unlesses"][0]))
+    kconds = [e for e in case["conds"] if not e.get("deco")]
+    kunless = [e for e in case["unlesses"] if not e.get("deco")]
+    if kconds:
+        kw.append("cond=[" + ", ".join(ent(e) for e in kconds) + "]" if len(kconds) != 1 else "cond=" + ent(kconds[0]))
+    if kunless:
+        kw.append("unless=[" + ", ".join(ent(e) for e in kunless) + "]" if len(kunless) != 1 else "unless=" + ent(kunless[0]))
     on = "on='fire_async'" if case.get("strict_async") else "on=lambda: 'FIRED'"
     if case.get("via_any"):
         # the same guarded self-transition declared through from_.any() (copied per source state)
         L.append("    go = s0.from_.any(" + ", ".join(kw + [on]) + ")")
+    elif case.get("two_src"):
+        L.insert(2, "    s1 = State()")
+        L.append("    mv = s0.to(s1)")
+        L.append("    go = s0.to.itself(" + ", ".join(kw + [on]) + ") | s1.to.itself(" + ", ".join(kw + [on]) + ")")
+        for tag, lst in (("cond", case["conds"]), ("unless", case["unlesses"])):
+            for e in lst:
+                if e.get("deco"):
+                    L.append(f"    @go.{tag}")
+                    L += member(e["lib"], "sm")
     else:
         L.append("    go = s0.to.itself(" + ", ".join(kw + [on]) + ")")
     if case.get("strict_async"):
@@ -393,6 +414,10 @@ def run_case(case, counters, violations, sigs, samples, src_only=False):
                     env.vals[(n, p)] = case["valuations"][0][f"{n}@{p}"]
             model, lis = Mod(), Lis()
             sm = M(model, listeners=[lis])
+            if case.get("two_src"):
+                sm.send("mv")        # the guards are evaluated on the event's SECOND transition
+                counters["second_transition_cases"] = counters.get("second_transition_cases", 0) + 1
+                counters["decorator_guard_cases"] = counters.get("decorator_guard_cases", 0) + any(e.get("deco") for e in entries)
         except Exception as err:  # noqa: BLE001
             counters["valid_rejected"] = counters.get("valid_rejected", 0) + 1
             nospace = any(
@@ -509,7 +534,10 @@ def gen_invalid(rng):
             s = X.to_lib(t, rng, style)
         else:
             s = s + " and " + unknown
-    return {"expr": s, "kind": kind, "names": names, "unknown": unknown}
+    # a valid entry next to the invalid one (same list, or the other keyword): one entry that resolves
+    # must not make the registry accept the other
+    return {"expr": s, "kind": kind, "names": names, "unknown": unknown,
+            "companion": rng.choice([None, None, "before", "after", "other_kw", "method_before"])}
 
 
 OUT_OF_GRAMMAR = ["x + 1 > 1", "x is None", "x in y", "f(x)", "x.y", "x if y else p", "[x]", "x > -1"]
@@ -527,7 +555,21 @@ def run_invalid(inv, counters, violations, where):
     lines = [f"class M_{k}(StateMachine):", "    s0 = State(initial=True)"]
     for n in list(inv["names"]) + ["x", "y", "p", "f"]:
         lines.append(f"    {n} = 1")
-    lines.append(f"    go = s0.to.itself({where}={expr!r})")
+    comp = inv.get("companion")
+    if comp == "before":
+        decl = f"{where}=['x', {expr!r}]"
+    elif comp == "after":
+        decl = f"{where}=[{expr!r}, 'y and p']"
+    elif comp == "other_kw":
+        decl = f"{where}={expr!r}, {'unless' if where == 'cond' else 'cond'}='x'"
+    elif comp == "method_before":
+        lines.append("    def okay(self):\n        return True")
+        decl = f"{where}=[okay, {expr!r}]"
+    else:
+        decl = f"{where}={expr!r}"
+    if comp:
+        counters["invalid_with_valid_companion"] = counters.get("invalid_with_valid_companion", 0) + 1
+    lines.append(f"    go = s0.to.itself({decl})")
     src = "\n".join(lines) + "\n"
     ns = {"State": State, "StateMachine": StateMachine, "__name__": "vmon_c08"}
     stage = "class"
